@@ -775,6 +775,7 @@ func TestProp(t *testing.T) {
 			}
 			return c
 		}, Check: checkConjMetaball},
+		kit.Clause[msConjCase]{Name: "C05/conj/marching-squares", Quick: 1500, Thorough: 40000, Fresh: true, Gen: genMSConj, Check: checkMSConj},
 		kit.Clause[mcConjCase]{Name: "C05/conj/marching-cubes", Quick: 300, Thorough: 8000, Fresh: true, Gen: func(t *rapid.T) mcConjCase {
 			c := mcConjCase{Tree: gen.NodeGen(t, 2, 3, false, "tree"), Delta: gen.LogF(t, 0.1, 0.3, "delta"), Iters: rapid.IntRange(0, 5).Draw(t, "iters"), Sq: rapid.IntRange(0, 3).Draw(t, "sq") == 0}
 			n := rapid.IntRange(1, 3).Draw(t, "n")
